@@ -40,8 +40,10 @@ def _wrap(base):
             base.fn(c)
         finally:
             ev = list(cur().batch_events)
-            # the functional clauses of the base contract belong to its own property: only the dependency clause here
-            c.pending[:] = [p for p in c.pending if p[0] == "safety"]
+            # the functional clauses of the base contract belong to its own property: only the dependency clause here -
+            # plus, for the adaptive neurons, the clauses about the ONE documented coupling: the batch reduction of the
+            # learned adaptation runs iff the neuron is adapting (never when adaptation is frozen)
+            c.pending[:] = [p for p in c.pending if p[0] == "safety" or (p[0] == "ensure" and ("adapting" in p[1]))]
             if ev:
                 c.info["batch_events"] = "; ".join(sorted({f"{k}: {t}" for k, t in ev}))[:300]
             c.ensure("no_cross_batch_dependence", z3.BoolVal(not ev))
@@ -156,6 +158,7 @@ SM = "inferno/neural/synapses/mixins.py"
 LIN = "inferno/neural/connections/linear.py"
 ND = "inferno/neural/functional/dynamics.py"
 MUTANTS = [
+    dict(file="inferno/neural/neurons/linear.py", func="ALIF.forward", old="        if adapt or (adapt is None and self.training):", new="        if adapt or (adapt is None or self.training):", contracts=["ALIF.forward[batch independence]"], name="seed C11b: adaptation (and its batch reduction) runs although frozen with adapt=False"),
     dict(file=SM, func="CurrentMixin.current@setter", name="seed C11: history write skipped when the whole batch is silent",
          old="        self.current_.push(value, self.inplace)", new="        if value.any() or self.current.any():\n            self.current_.push(value, self.inplace)\n        else:\n            self.current_.incr()",
          contracts=["SingleExponentialCurrent.forward[batch independence]"]),
